@@ -15,6 +15,7 @@ import (
 	"go/constant"
 	"go/token"
 	"go/types"
+	"sync"
 
 	"golang.org/x/tools/go/cfg"
 
@@ -49,7 +50,12 @@ type X struct {
 	LoopDecisions bool
 	bind          map[types.Object]ast.Expr // parameter -> argument, when this body is an inlined helper
 	expd          map[types.Object]ast.Expr // memo of expandable boolean locals (nil entry: not expandable)
-	depth         int
+	// Shaky is set by Reach when the only witnesses it found pass a branch on a call that is not
+	// evaluated and receives a tracked value: such a witness does not justify a violation.
+	Shaky bool
+	preds map[*ast.CallExpr]ast.Expr
+	roots []ast.Node // bodies of the callers when this is the table of an inlined helper (innermost first) // memo of one-line predicate helpers written out over their arguments
+	depth int
 }
 
 // New indexes the switch statements and loops of g's body.
@@ -630,3 +636,46 @@ func (x *X) Traces(from *cfg.Block, idx int, stop func(*cfg.Block) bool, max int
 	walk(from, idx, nil, true)
 	return out, err
 }
+
+// Find locates the control-flow node that contains n, by identity: in a view, the copies
+// of an unrolled loop body share their source positions, so a lookup by position (cfgq.Graph.Find)
+// may answer with another copy. Nodes that are not part of the graph's tree (synthesised
+// expressions) fall back to the lookup by position.
+func Find(g *cfgq.Graph, n ast.Node) (cfgq.Point, bool) {
+	findMu.Lock()
+	idx := findIdx[g]
+	if idx == nil {
+		idx = map[ast.Node]cfgq.Point{}
+		for _, b := range g.CFG.Blocks {
+			for i, m := range b.Nodes {
+				pt := cfgq.Point{B: b, I: i}
+				ast.Inspect(m, func(s ast.Node) bool {
+					if s == nil {
+						return false
+					}
+					if _, isLit := s.(*ast.FuncLit); isLit && s != m {
+						if _, seen := idx[s]; !seen {
+							idx[s] = pt
+						}
+						return false
+					}
+					if _, seen := idx[s]; !seen {
+						idx[s] = pt
+					}
+					return true
+				})
+			}
+		}
+		findIdx[g] = idx
+	}
+	findMu.Unlock()
+	if pt, ok := idx[n]; ok {
+		return pt, true
+	}
+	return g.Find(n)
+}
+
+var (
+	findMu  sync.Mutex
+	findIdx = map[*cfgq.Graph]map[ast.Node]cfgq.Point{}
+)
